@@ -520,6 +520,52 @@ def payloads(x) -> list[bytes]:
     return []
 
 
+def shrink_payloads(x):
+    """Cut every binary payload of an extraction result to 6 bytes, in place (shared image objects stay shared)."""
+    seen = set()
+
+    def cut(v):
+        if isinstance(v, io.BytesIO):
+            return io.BytesIO(v.getvalue()[:6])
+        if isinstance(v, bytearray):
+            return bytearray(v[:6])
+        if isinstance(v, bytes):
+            return v[:6]
+        walk(v)
+        return v
+
+    def walk(v):
+        if id(v) in seen:
+            return
+        seen.add(id(v))
+        if dataclasses.is_dataclass(v) and not isinstance(v, type):
+            for f in dataclasses.fields(v):
+                object.__setattr__(v, f.name, cut(getattr(v, f.name)))
+        elif isinstance(v, dict):
+            for k in list(v):
+                v[k] = cut(v[k])
+        elif isinstance(v, list):
+            for i in range(len(v)):
+                v[i] = cut(v[i])
+
+    walk(x)
+    return x
+
+
+def binary_marker_paths(j, path="$") -> list[str]:
+    """Positions of {"_bytes": <non-null>} / {"_bytesio": <non-null>} in a parsed JSON document."""
+    out = []
+    if isinstance(j, dict):
+        for k, v in j.items():
+            if k in ("_bytes", "_bytesio") and v is not None:
+                out.append(f"{path}.{k}")
+            out += binary_marker_paths(v, f"{path}.{k}")
+    elif isinstance(j, list):
+        for i, v in enumerate(j):
+            out += binary_marker_paths(v, f"{path}[{i}]")
+    return out
+
+
 def jtext(j) -> str:
     return json.dumps(j)
 
@@ -719,6 +765,61 @@ def make_xlsx_cases(td: Path):
     wb.save(p)
     out.append(("xlsx-duration-cell", p))
     return out
+
+
+def cli_ast_problems() -> list[str]:
+    """X-tie for cli.py: the include_binary flag reaches every serialiser call explicitly.
+    * every call of serialize_extraction / _serialize_for_json / a cli-local _serialize_* function that takes the flag
+      passes `include_binary=<Name include_binary>`;
+    * a function of cli.py with an include_binary parameter gives it no default and never rebinds it;
+    * in main, include_binary is bound exactly once, from an expression over args.binary only.
+    Helper functions may be introduced freely as long as they hand the flag on."""
+    from sharepoint2text import cli
+    tree = ast.parse(inspect.getsource(cli))
+    problems = []
+    funcs = {n.name: n for n in ast.walk(tree) if isinstance(n, (ast.FunctionDef, ast.AsyncFunctionDef))}
+
+    def params(fn):
+        a = fn.args
+        return [x.arg for x in a.posonlyargs + a.args + a.kwonlyargs]
+
+    takes_flag = {name for name, fn in funcs.items() if "include_binary" in params(fn)} | \
+                 {"serialize_extraction", "_serialize_for_json"}
+    for name, fn in funcs.items():
+        a = fn.args
+        if "include_binary" in params(fn):
+            pos = a.posonlyargs + a.args
+            defaults = dict(zip([x.arg for x in pos[len(pos) - len(a.defaults):]], a.defaults))
+            defaults.update({k.arg: d for k, d in zip(a.kwonlyargs, a.kw_defaults) if d is not None})
+            if "include_binary" in defaults:
+                problems.append(f"{name}: include_binary has a default ({ast.unparse(defaults['include_binary'])})")
+        binds = [n for n in ast.walk(fn) if isinstance(n, (ast.Assign, ast.AugAssign, ast.AnnAssign, ast.NamedExpr))
+                 and any(isinstance(x, ast.Name) and x.id == "include_binary" for tgt in
+                         (n.targets if isinstance(n, ast.Assign) else [n.target]) for x in ast.walk(tgt))]
+        if "include_binary" in params(fn) and binds:
+            problems.append(f"{name}: rebinds include_binary")
+        if "include_binary" not in params(fn) and binds:
+            ok = (len(binds) == 1 and isinstance(binds[0], ast.Assign) and
+                  {ast.unparse(x) for x in ast.walk(binds[0].value) if isinstance(x, ast.Attribute)} == {"args.binary"} and
+                  all(isinstance(x, (ast.Attribute, ast.Name, ast.Call, ast.Load)) for x in ast.walk(binds[0].value)) and
+                  {x.id for x in ast.walk(binds[0].value) if isinstance(x, ast.Name)} <= {"args", "bool"})
+            if not ok:
+                problems.append(f"{name}: include_binary is not bound once from args.binary: "
+                                + "; ".join(ast.unparse(b) for b in binds)[:160])
+        for call in [n for n in ast.walk(fn) if isinstance(n, ast.Call)]:
+            callee = call.func.id if isinstance(call.func, ast.Name) else (call.func.attr if isinstance(call.func, ast.Attribute) else None)
+            if callee in takes_flag:
+                kw = [k for k in call.keywords if k.arg == "include_binary"]
+                if any(k.arg is None for k in call.keywords):
+                    problems.append(f"{name}: {callee}(**...) hides the flag")
+                elif not kw:
+                    problems.append(f"{name}: call {ast.unparse(call)[:80]} does not pass include_binary")
+                elif not (isinstance(kw[0].value, ast.Name) and kw[0].value.id == "include_binary"):
+                    problems.append(f"{name}: call of {callee} passes include_binary={ast.unparse(kw[0].value)[:40]}")
+    if not any(isinstance(n, ast.Call) and (getattr(n.func, "id", None) or getattr(n.func, "attr", None)) in takes_flag
+               for n in ast.walk(tree)):
+        problems.append("no serialiser call found in cli.py (translator out of date)")
+    return problems
 
 
 def run_cli(argv):
@@ -989,6 +1090,7 @@ def run(ctx):
         docs = [("fixture:" + str(p.relative_to(common.REPO / "sharepoint2text" / "tests" / "resources")), p)
                 for p in fixture_files()] + make_xlsx_cases(td)
         multi = None
+        unit_bin, result_bin = [], set()    # fixtures whose units / results carry binary payloads
         for label, p in docs:
             try:
                 rs = list(sharepoint2text.read_file(str(p)))
@@ -1004,6 +1106,11 @@ def run(ctx):
                     objs += [("unit", u) for u in x.iterate_units()]
                 except Exception:  # noqa
                     pass
+                if payloads(x):
+                    result_bin.add(label)
+                if len(rs) == 1 and payloads(x) and any(payloads(u) for _, u in objs[1:]) and p.stat().st_size < 1_500_000 \
+                        and (label, p) not in unit_bin:
+                    unit_bin.append((label, p))
                 for role, o in objs:
                     ctx.case((key, role, len(objs)), bool(payloads(o)) or role == "result", kind=f"document:{role}")
                     others = other_leaves(o)
@@ -1034,23 +1141,68 @@ def run(ctx):
                         results_small.append((key, o))
 
         mark("documents")
-        # ---- CLI: four JSON modes
+        # ---- CLI: four JSON modes, on single results, on multi-result fixtures, on a generated archive whose members
+        # carry images (binary payloads in the units AND in the extraction objects), and on combinations of real
+        # image-bearing results with shortened payloads (small enough for the model comparison in Coq)
+        cli_inputs = []                     # (label, path, results)
         cli_docs = [(lb, p) for lb, p in docs if lb.startswith("xlsx-")]
-        fx = {lb: p for lb, p in docs}
         for want in ("fixture:modern_ms", "fixture:plain_text", "fixture:mails", "fixture:html", "fixture:open_office",
                      "fixture:legacy_ms"):
             c = [(lb, p) for lb, p in docs if lb.startswith(want) and p.stat().st_size < 400_000]
             cli_docs += c[:ctx.n(1, 4)]
         if multi:
             cli_docs.append(multi)
-        cli_cases = []
         for label, p in cli_docs:
             try:
-                base = list(sharepoint2text.read_file(str(p)))
+                cli_inputs.append((label, p, list(sharepoint2text.read_file(str(p)))))
             except Exception:  # noqa
                 continue
-            for flag in ("--json", "--json-unit"):
-                for binary in (False, True):
+        unit_bin.sort(key=lambda lp: lp[1].stat().st_size)
+        picks = unit_bin[:ctx.n(3, 6)]
+        ctx.extra["cli_binary_unit_sources"] = [lb for lb, _ in picks]
+        if len(picks) >= 2:
+            import zipfile
+            zp = td / "two_with_images.zip"
+            with zipfile.ZipFile(zp, "w") as z:
+                z.write(picks[0][1], "a/" + picks[0][1].name)
+                z.write(picks[0][1], "b/copy_" + picks[0][1].name)
+                z.write(picks[1][1], "c/" + picks[1][1].name)
+            try:
+                rs_zip = list(sharepoint2text.read_file(str(zp)))
+                cli_inputs.append(("generated:zip-of-documents-with-images", zp, rs_zip))
+            except Exception as e:  # noqa
+                ctx.obligation("generated archive with image-bearing members is extracted", False, repr(e))
+        shrunk = []
+        for lb, p in picks:
+            try:
+                shrunk.append((lb, p, [shrink_payloads(r) for r in sharepoint2text.read_file(str(p))]))
+            except Exception:  # noqa
+                continue
+        att = [(lb, p) for lb, p in docs if lb.startswith("fixture:mails") and lb in result_bin]
+        if att:
+            try:
+                shrunk.append((att[0][0], att[0][1], [shrink_payloads(r) for r in sharepoint2text.read_file(str(att[0][1]))]))
+            except Exception:  # noqa
+                pass
+        for i, (lb, p, rs_) in enumerate(shrunk):
+            cli_inputs.append((f"shrunk:{lb}", p, rs_))
+            if i + 1 < len(shrunk):
+                cli_inputs.append((f"shrunk:{lb}+{shrunk[i + 1][0]}", p, copy.deepcopy(rs_) + copy.deepcopy(shrunk[i + 1][2])))
+        if len(shrunk) >= 3:
+            cli_inputs.append(("shrunk:all", shrunk[0][1], [copy.deepcopy(r) for _, _, rs_ in shrunk for r in rs_]))
+        have_multi_bin = any(len(rs_) > 1 and any(payloads(u) for r in rs_ for u in copy.deepcopy(r).iterate_units())
+                             and any(payloads(r) for r in rs_) for _, _, rs_ in cli_inputs)
+        ctx.obligation("cli inputs include >=2 results with binary payloads in units and in extraction objects",
+                       have_multi_bin, f"image-bearing fixtures found: {[lb for lb, _ in unit_bin][:6]}")
+
+        astp = cli_ast_problems()
+        ctx.obligation("cli.py: include_binary is handed explicitly to every serialiser call (ast)", not astp, "; ".join(astp))
+        cli_cases = []
+        for label, p, base in cli_inputs:
+            content_markers = any(has_marker_key(r) for r in base)
+            for binary in (False, True):
+                parsed_by_flag = {}
+                for flag in ("--json", "--json-unit"):
                     # The CLI is run on exactly these results (read_file patched to replay them): extraction need not
                     # be deterministic (C06: timestamps of "now", iterate_units mutating a result) and C05 only
                     # speaks about the shaping/encoding of given results.
@@ -1062,19 +1214,24 @@ def run(ctx):
                     finally:
                         sharepoint2text.read_file = orig_read
                     rs = copy.deepcopy(base)
-                    ctx.case(("cli", label, flag, binary), True, kind=f"cli:{flag}{'+binary' if binary else ''}:"
-                             f"{'one' if len(rs) == 1 else 'several'}")
+                    several = "one" if len(rs) == 1 else "several"
+                    mode = f"{flag}{'+binary' if binary else ''}:{several}"
+                    ctx.case(("cli", label, flag, binary), True, kind=f"cli:{mode}" +
+                             (":binary-in-units" if any(payloads(u) for r in copy.deepcopy(base) for u in r.iterate_units()) else ""))
                     if flag == "--json":
                         per = [S.serialize_extraction(r, include_binary=binary) for r in rs]
-                        want_payload = per[0] if len(rs) == 1 else per
                     else:
                         per = [[S.serialize_extraction(u, include_binary=binary) for u in r.iterate_units()] for r in rs]
-                        want_payload = per[0] if len(rs) == 1 else per
+                    want_payload = per[0] if len(rs) == 1 else per
                     try:
                         want_text = json.dumps(want_payload) + "\n"
                     except Exception as e:  # noqa
                         want_text = None
-                    rp = {"document": str(p), "argv": argv[1:], "exit": rc, "stdout_len": len(out), "stderr": err[-300:]}
+                    rp = {"input": label, "document": str(p), "argv": argv[1:], "exit": rc, "stdout_len": len(out),
+                          "stderr": err[-300:], "results": [type(r).__name__ for r in rs],
+                          "how": "list(sharepoint2text.read_file(document)) gives the results (for shrunk:* inputs the binary "
+                                 "payloads are cut to 6 bytes and several fixtures' results are concatenated); "
+                                 "sharepoint2text.cli.main([document] + argv)"}
                     if want_text is None:
                         # payload is not encodable (reported above as its own finding); the CLI must then fail cleanly
                         if out.strip():
@@ -1084,21 +1241,36 @@ def run(ctx):
                         elif rc == 0:
                             ctx.finding(f"cli-exit0-without-output:{label}", "CLI returned 0 without JSON", rp)
                         continue
+                    try:
+                        parsed = json.loads(out) if rc == 0 else None
+                    except Exception:  # noqa
+                        parsed = None
+                    # without --binary no binary marker with a payload may appear anywhere in the output
+                    if parsed is not None and not binary and not content_markers:
+                        leak = binary_marker_paths(parsed)
+                        if leak:
+                            rp2 = dict(rp, marker_paths=leak[:5])
+                            ctx.finding(f"cli-binary-leak:{flag}:{several}",
+                                        f"CLI {flag} without --binary emits base64 payloads ({len(leak)} markers, first at "
+                                        f"{leak[0]}) for {label}", rp2)
+                            continue
                     if rc != 0 or out != want_text:
-                        ctx.finding(f"cli-output-differs:{flag}{'+binary' if binary else ''}:{'one' if len(rs) == 1 else 'several'}",
+                        ctx.finding(f"cli-output-differs:{mode}",
                                     f"CLI stdout is not json.dumps of the shaped payload (exit {rc}) for {label}", rp)
                         continue
-                    parsed = json.loads(out)
                     shape_ok = (isinstance(parsed, dict) if (flag == "--json" and len(rs) == 1) else isinstance(parsed, list))
                     if not shape_ok:
                         ctx.finding(f"cli-shape:{flag}", f"{label}: one result must give an object, several an array", rp)
-                    if len(out) < 40_000 and flag == "--json":
-                        tb = Tables()
-                        rterm = coq_list([f"({val_term(r, tb)}, {coq_list([val_term(u, tb) for u in r.iterate_units()])})"
-                                          for r in rs])
-                        pu = [[S.serialize_extraction(u, include_binary=binary) for u in r.iterate_units()] for r in rs]
-                        pu = pu[0] if len(rs) == 1 else pu
-                        cli_cases.append(f"({rterm}, {tb.enc_table()}, {coq_bool(binary)}, {json_term(parsed)}, {json_term(pu)})")
+                    parsed_by_flag[flag] = (parsed, len(out))
+                # model vs the CLI's two actual outputs for this include_binary
+                if len(parsed_by_flag) == 2 and sum(n for _, n in parsed_by_flag.values()) < ctx.n(90_000, 160_000):
+                    rs = copy.deepcopy(base)
+                    tb = Tables()
+                    rterm = coq_list([f"({val_term(r, tb)}, {coq_list([val_term(u, tb) for u in copy.deepcopy(r).iterate_units()])})"
+                                      for r in rs])
+                    cli_cases.append(f"({rterm}, {tb.enc_table()}, {coq_bool(binary)}, "
+                                     f"{json_term(parsed_by_flag['--json'][0])}, {json_term(parsed_by_flag['--json-unit'][0])})")
+                    ctx.count("cli-model-case:" + ("several" if len(base) > 1 else "one") + (":binary" if binary else ""))
 
     mark("cli")
     # model vs implementation on the small real results and the CLI payloads
